@@ -8,7 +8,7 @@ import itertools
 from . import forms
 
 ELEMS = ["P1", "P2", "P3", "DG0", "DG1", "DG2", "P1+B", "vP1", "vP2", "vDG1", "symP1", "tDG1", "N1curl1", "N1curl2", "RT1", "RT2",
-         "BDM1", "Regge1", "HHJ1", "CR1", "TH", "RTxDG0", "Real", "Quad2"]
+         "BDM1", "Regge1", "HHJ1", "CR1", "TH", "RTxDG0", "Real", "Quad2", "iso1", "S2", "Bubble", "N2curl1", "nested", "vReal", "vP1xP1"]
 
 # dimension -> (all values [first = baseline], core values used for the second deviation at radius 2)
 DIMS = {
@@ -19,7 +19,7 @@ DIMS = {
     "op": (["val", "grad", "divcurl", "dx0", "dxlast", "hess", "comp"], ["grad", "dx0", "comp"]),
     "factor": (["f"] + [x for x in forms.FACTORS if x != "f"], ["one", "fg", "c0", "sqrt", "cond", "gradf", "diam", "normal", "xpoly"]),
     "wrap": (["plain", "condarg", "sum2", "neg"], ["condarg", "sum2"]),
-    "quad": (["auto", "deg1", "deg6", "vertex", "GLL3", "two", "two1"], ["deg1", "two", "two1"]),
+    "quad": (["auto", "deg1", "deg6", "vertex", "GLL3", "two", "two1", "mix2", "same2"], ["deg1", "two", "two1"]),
     "subdomain": (["all", "id", "tuple", "all+id"], ["tuple", "all+id"]),
     "restr": (["++", "+-", "-+", "--", "jj", "aa", "ja"], ["+-", "-+", "jj", "ja"]),
     "scalar": (["float64", "float32", "complex128", "complex64"], ["complex128"]),
